@@ -159,6 +159,10 @@ func (s *Server) Run(addr string, opt ...Option) error {
 	if err != nil {
 		return fmt.Errorf("%s: unable to listen to addr %s: %w", op, addr, err)
 	}
+	// release the listener on every exit: Stop() may have been called before
+	// we started listening and therefore found no listener to close (closing
+	// it a second time is harmless).
+	defer func() { _ = s.listener.Close() }()
 	if opts.withTLSConfig != nil {
 		s.logger.Debug("setting up TLS listener", "op", op)
 		s.tlsConfig = opts.withTLSConfig
